@@ -379,7 +379,12 @@ impl<'p> Interp<'p> {
                 }
             }
             (_, "to_string") => match fmt_to_string(&recv) {
-                Some(s) => Ok(V::Str(s)),
+                Some(s) => {
+                    if let V::Trk(t) = &recv {
+                        self.log.push(Ev::new("Trk.to_string", vec![V::Trk(*t)]));
+                    }
+                    Ok(V::Str(s))
+                }
                 None => panic!("rotogen bug: to_string on {recv:?}"),
             },
             _ => panic!("rotogen bug: method {name} on {recv_ty:?}"),
@@ -649,6 +654,11 @@ impl<'p> Interp<'p> {
                         FPart::Text(t) => s.push_str(t),
                         FPart::Expr(pe) => {
                             let v = self.expr(pe)?;
+                            // a part is formatted before the next part is evaluated; the
+                            // to_string of a registered type is a (logged) host call
+                            if let V::Trk(t) = &v {
+                                self.log.push(Ev::new("Trk.to_string", vec![V::Trk(*t)]));
+                            }
                             s.push_str(&fmt_to_string(&v).expect("formattable"));
                         }
                     }
